@@ -534,6 +534,7 @@ def parseTokens (ts : List Tok) : Res Expr := parseTokensF (2 * ts.length + 4) t
 
 /-- ast.ParseLambda -/
 def parseLambda (src : String) : Res Expr :=
+  if src.toList.contains '\n' then .na "newline-layout" else
   (lex src.toList).bind (fun rts => (decodeAll rts).bind parseTokens)
 
 /-! ## Format (node.go), single-line layout -/
@@ -547,14 +548,34 @@ def fmtNum : Num → Res String
     else .na "base"
   | .flt c => .ok c
 
-/-- StringNode.Format (with the repair: a literal that a single-quoted string cannot hold – it ends in a
-backslash – is written triple-quoted when that form can hold it) -/
+def endsWithBackslash (cs : List Char) : Bool := cs.getLast? = some '\\'
+
+def hasTwoQuotes : List Char → Bool
+  | '\'' :: '\'' :: _ => true
+  | _ :: rest => hasTwoQuotes rest
+  | [] => false
+
+/-- the quoting StringNode.Format chooses: the TripleQuotes flag, or (repair 02ebb2e) triple quotes for a
+literal that ends in a backslash and has no two adjacent quotes -/
+def useTriple (lit : List Char) (triple : Bool) : Bool :=
+  triple || (endsWithBackslash lit && !hasTwoQuotes lit)
+
+/-- StringNode.Format -/
 def fmtString (lit : String) (triple : Bool) : String :=
+  if useTriple lit.toList triple then "'''" ++ lit ++ "'''"
+  else "'" ++ String.ofList (escQ '\'' lit.toList) ++ "'"
+
+/-- StringNode.Format before 02ebb2e -/
+def fmtStringOld (lit : String) (triple : Bool) : String :=
   if triple then "'''" ++ lit ++ "'''"
   else "'" ++ String.ofList (escQ '\'' lit.toList) ++ "'"
 
+/-- the Literal RegexNode.Format writes: the parser's, or (repair 341b804) derived from the regex -/
+def regexLiteral (re lit : String) : String :=
+  if lit.isEmpty && !re.isEmpty then String.ofList (escQ '/' re.toList) else lit
+
 /-- RegexNode.Format -/
-def fmtRegex (_re lit : String) : String := "/" ++ lit ++ "/"
+def fmtRegex (re lit : String) : String := "/" ++ regexLiteral re lit ++ "/"
 
 def fmtAtom : Atom → Res String
   | .num n => fmtNum n
@@ -565,36 +586,63 @@ def fmtAtom : Atom → Res String
   | .ref s => .ok ("\"" ++ String.ofList (escQ '"' s.toList) ++ "\"")
   | .star => .ok "*"
 
+/-- binaryOperandNeedsParens (repair 50a1b8a) -/
+def needsParens (operand : Expr) (op : BinOp) (right : Bool) : Bool :=
+  match operand with
+  | .bin o _ _ _ => if right then prec o ≤ prec op else prec o < prec op
+  | _ => false
+
 mutual
-/-- Node.Format → text -/
-def fmtStr : Expr → Res String
-  | .lit a => fmtAtom a
-  | .id s => .ok s
-  | .un op e => (fmtStr e).bind (fun s => .ok (op.str ++ s))
-  | .bin o l r p =>
-    (fmtStr l).bind (fun a => (fmtStr r).bind (fun b =>
-      .ok ((if p then "(" else "") ++ a ++ " " ++ opStr o ++ " " ++ b ++ (if p then ")" else ""))))
-  | .call f args => (fmtArgs args).bind (fun s => .ok (f ++ "(" ++ s ++ ")"))
+/-- Node.Format → text. `extra` = the parentheses `formatOperand` asks for (only a BinaryNode honours it). -/
+def fmtStrP : Expr → Bool → Res String
+  | .lit a, _ => fmtAtom a
+  | .id s, _ => .ok s
+  | .un op e, _ => (fmtStrP e true).bind (fun s => .ok (op.str ++ s))
+  | .bin o l r p, extra =>
+    (fmtStrP l (needsParens l o false)).bind (fun a => (fmtStrP r (needsParens r o true)).bind (fun b =>
+      .ok ((if p || extra then "(" else "") ++ a ++ " " ++ opStr o ++ " " ++ b ++ (if p || extra then ")" else ""))))
+  | .call f args, _ => (fmtArgs args).bind (fun s => .ok (f ++ "(" ++ s ++ ")"))
 def fmtArgs : List Expr → Res String
   | [] => .ok ""
-  | [a] => fmtStr a
-  | a :: rest => (fmtStr a).bind (fun s => (fmtArgs rest).bind (fun t => .ok (s ++ ", " ++ t)))
+  | [a] => fmtStrP a false
+  | a :: rest => (fmtStrP a false).bind (fun s => (fmtArgs rest).bind (fun t => .ok (s ++ ", " ++ t)))
 end
+
+def fmtStr (e : Expr) : Res String := fmtStrP e false
 
 mutual
 /-- Node.Format → decoded tokens (the structure of the printed text) -/
-def fmtToks : Expr → List Tok
-  | .lit a => [.lit a]
-  | .id s => [.id s]
-  | .un .neg e => .op .TokenMinus :: fmtToks e
-  | .un .not e => .not :: fmtToks e
-  | .bin o l r p =>
-    (if p then [.lp] else []) ++ fmtToks l ++ [.op o] ++ fmtToks r ++ (if p then [.rp] else [])
-  | .call f args => .id f :: .lp :: fmtArgToks args ++ [.rp]
+def fmtToksP : Expr → Bool → List Tok
+  | .lit a, _ => [.lit a]
+  | .id s, _ => [.id s]
+  | .un .neg e, _ => .op .TokenMinus :: fmtToksP e true
+  | .un .not e, _ => .not :: fmtToksP e true
+  | .bin o l r p, extra =>
+    (if p || extra then [.lp] else []) ++ fmtToksP l (needsParens l o false) ++ [.op o] ++
+      fmtToksP r (needsParens r o true) ++ (if p || extra then [.rp] else [])
+  | .call f args, _ => .id f :: .lp :: fmtArgToks args ++ [.rp]
 def fmtArgToks : List Expr → List Tok
   | [] => []
-  | [a] => fmtToks a
-  | a :: rest => fmtToks a ++ .comma :: fmtArgToks rest
+  | [a] => fmtToksP a false
+  | a :: rest => fmtToksP a false ++ .comma :: fmtArgToks rest
+end
+
+def fmtToks (e : Expr) : List Tok := fmtToksP e false
+
+mutual
+/-- Node.Format before 50a1b8a: parentheses only where the Parens flag says so -/
+def fmtToksOld : Expr → List Tok
+  | .lit a => [.lit a]
+  | .id s => [.id s]
+  | .un .neg e => .op .TokenMinus :: fmtToksOld e
+  | .un .not e => .not :: fmtToksOld e
+  | .bin o l r p =>
+    (if p then [.lp] else []) ++ fmtToksOld l ++ [.op o] ++ fmtToksOld r ++ (if p then [.rp] else [])
+  | .call f args => .id f :: .lp :: fmtArgToksOld args ++ [.rp]
+def fmtArgToksOld : List Expr → List Tok
+  | [] => []
+  | [a] => fmtToksOld a
+  | a :: rest => fmtToksOld a ++ .comma :: fmtArgToksOld rest
 end
 
 /-! ## JSON (MarshalJSON / unmarshal): what survives a round trip -/
@@ -616,7 +664,7 @@ def roundF64 (v : Int) : Int :=
 def jsonAtom : Atom → Res Atom
   | .num (.int b v) =>
     if b = 0 then .err  -- "integer base cannot be zero"
-    else if (roundF64 v).natAbs ≥ 9223372036854775808 then .na "int64-of-out-of-range-float"
+    else if roundF64 v ≥ 9223372036854775808 then .ok (.num (.int b (-9223372036854775808)))  -- int64(2^63) on amd64
     else .ok (.num (.int b (roundF64 v)))
   | .num (.flt c) => .ok (.num (.flt c))
   | .dur ns _ => .ok (.dur ns "")
@@ -633,7 +681,7 @@ def jsonRT : Expr → Res Expr
   | .id s => .ok (.id s)
   | .un op e => (jsonRT e).bind (fun e' => .ok (.un op e'))
   | .bin o l r _ => (jsonRT l).bind (fun l' => (jsonRT r).bind (fun r' => .ok (.bin o l' r' false)))
-  | .call _ args => (jsonRTs args).bind (fun as => .ok (.call "" as))
+  | .call f args => (jsonRTs args).bind (fun as => .ok (.call f as))
 def jsonRTs : List Expr → Res (List Expr)
   | [] => .ok []
   | a :: rest => (jsonRT a).bind (fun a' => (jsonRTs rest).bind (fun r' => .ok (a' :: r')))
